@@ -19,6 +19,8 @@ PROPS['C04'] = {
     'functions': [
         '(*tree.Quartet).Compare', '(*tree.Quartet).HashCode', '(*tree.Quartet).HashEquals',
         '(*tree.Edge).HashCode', '(*tree.Tree).UpdateTipIndex',
+        '(*tree.Edge).HashEquals', '(*tree.Edge).SameBipartition', '(*tree.Edge).FindEdge',
+        '(*tree.Tree).clearBitSetsRecur', '(*tree.Tree).ClearBitSets',
     ],
     'lemma_files': [],
     'trusted_base': TB_COMMON,
